@@ -324,7 +324,9 @@ def opResolve (f : Fam) (base r : Text) (out : String) : String × String :=
           -- the RFC target is C06's statement; other properties that run resolution (C13: both
           -- families agree) only need validity and agreement with the model
           (Oracle.resolve f base r t).map ("[only:C06] " ++ ·)])
-        if v != "ok" && valid f "full" t && Findings.f15 base r then v ++ " [KF:F15]" else v
+        -- the theorem of C06 that speaks about this pair, for the evidence
+        let cls := " [cls:" ++ Model.resolveClass base r ++ "]"
+        (if v != "ok" && valid f "full" t && Findings.f15 base r then v ++ " [KF:F15]" else v) ++ cls
       | none => "FAIL " ++ out
   (m, o)
 
